@@ -174,8 +174,11 @@ class PolygonPixelRegion(PixelRegion):
         """
         from matplotlib.patches import Polygon
 
-        xy = np.vstack([self.vertices.x - origin[0],
-                        self.vertices.y - origin[1]]).transpose()
+        # convert to float first: integer-typed (e.g., unsigned) vertex
+        # arrays would wrap around when the origin is subtracted
+        xy = np.vstack([np.asarray(self.vertices.x, dtype=float) - origin[0],
+                        np.asarray(self.vertices.y, dtype=float) - origin[1]
+                        ]).transpose()
 
         mpl_kwargs = self.visual.define_mpl_kwargs(self._mpl_artist)
         mpl_kwargs.update(kwargs)
